@@ -1228,6 +1228,12 @@ class MetaModel(object):
         source_metaclass = self.find_metaclass(source_kind)
         target_metaclass = self.find_metaclass(target_kind)
 
+        for name in target_keys:
+            if name.upper() not in [attr.upper() for attr in 
+                                    target_metaclass.attribute_names]:
+                raise MetaModelException('%s refers to an unknown attribute '
+                                         '%s.%s' % (rel_id, target_kind, name))
+        
         source_link = target_metaclass.add_link(source_metaclass, rel_id,
                                                 many=source_many,
                                                 phrase=target_phrase,
